@@ -94,6 +94,10 @@ func vAssert(c bool, msg string) {
 // path; natively an ordinary assertion on the concrete run.
 func vAssertPossible(c bool, msg string) { vAssert(c, msg) }
 
+// vKeygenCount: number of key generations so far on this path (engine only;
+// natively always 0, so differences are vacuous there).
+func vKeygenCount() int { return 0 }
+
 func vReach(label string)            {}
 func vKnown(class string, pred bool) {}
 func vParam(name string, def int) int {
